@@ -32,7 +32,7 @@ type sFile struct {
 	Renamed string  `json:"renamed"` // target name ("" = same)
 	Prev    string  `json:"prev"`    // announced predecessor
 	Data    string  `json:"data"`
-	Cuts    []int64 `json:"cuts"` // part boundaries, e.g. [0,4,8]
+	Cuts    []int64 `json:"cuts"`                 // part boundaries, e.g. [0,4,8]
 	TimeOff int64   `json:"time_off_s,omitempty"` // file time relative to the scenario's default (seconds)
 }
 
@@ -47,8 +47,8 @@ func (f *sFile) hash() string { return vh.MD5([]byte(f.Data)) }
 
 type sAction struct {
 	Op string `json:"op"`
-	F  string `json:"f,omitempty"` // file key
-	P  int    `json:"p,omitempty"` // part index
+	F  string `json:"f,omitempty"`  // file key
+	P  int    `json:"p,omitempty"`  // part index
 	K  int    `json:"k,omitempty"`  // crash point (C06): the receiver dies before the K-th file-system mutation of this step
 	K2 int    `json:"k2,omitempty"` // second crash: before the K2-th mutation of the recovery that follows
 }
@@ -69,25 +69,25 @@ func (a sAction) String() string {
 
 // sStep is what happened in one step.
 type sStep struct {
-	Act      sAction
-	Err      string
-	Arrived  []string          // "target md5" taken from the final directory after the step
-	Status   int               // poll answer (op poll)
-	NRecv    int               // Received() answer
-	Removed  []string          // staging entries that disappeared during the step: "relpath size md5"
-	Changed  []string          // staging files whose content changed during the step
-	RmDirs   []string          // directories removed during the step "relpath agebucket empty?"
-	Ops      int               // vos mutations during the step (crash points available)
-	Ops2     int               // vos mutations during the recovery after the crash
-	Crashed  bool              // a crash image was taken in this step and the world restarted from it
-	LogAfter []string          // receive-log records after the step
-	States   map[string]int    // cache state per file name after the step
-	Hashes   map[string]string // cache hash per file name after the step
-	Waiting  map[string]bool   // name -> parked in wait map
-	Stage    []vh.Entry        // staging tree after the step
+	Act       sAction
+	Err       string
+	Arrived   []string          // "target md5" taken from the final directory after the step
+	Status    int               // poll answer (op poll)
+	NRecv     int               // Received() answer
+	Removed   []string          // staging entries that disappeared during the step: "relpath size md5"
+	Changed   []string          // staging files whose content changed during the step
+	RmDirs    []string          // directories removed during the step "relpath agebucket empty?"
+	Ops       int               // vos mutations during the step (crash points available)
+	Ops2      int               // vos mutations during the recovery after the crash
+	Crashed   bool              // a crash image was taken in this step and the world restarted from it
+	LogAfter  []string          // receive-log records after the step
+	States    map[string]int    // cache state per file name after the step
+	Hashes    map[string]string // cache hash per file name after the step
+	Waiting   map[string]bool   // name -> parked in wait map
+	Stage     []vh.Entry        // staging tree after the step
 	CmpBefore map[string]string // staged name -> hash recorded in its companion before the step
-	Before   []vh.Entry        // staging tree before the step
-	Now      time.Time
+	Before    []vh.Entry        // staging tree before the step
+	Now       time.Time
 }
 
 type sim struct {
@@ -102,10 +102,14 @@ type sim struct {
 	image   string
 	roots   []string
 	init    func(s *sim)
+	keep    bool // delivered files stay in the final directory
 }
 
+// simKeep: simulations of the running test leave delivered files in the final directory.
+var simKeep bool
+
 func newSim(files []*sFile) *sim {
-	s := &sim{files: map[string]*sFile{}}
+	s := &sim{files: map[string]*sFile{}, keep: simKeep}
 	for _, f := range files {
 		s.files[f.Key] = f
 		s.order = append(s.order, f.Key)
@@ -118,6 +122,7 @@ func (s *sim) begin() {
 	root := vh.NewSandbox()
 	s.roots = append(s.roots, root)
 	s.w = newRW(root)
+	s.w.keep = s.keep
 	s.t0 = time.Now()
 	s.ftime = s.t0.Add(-time.Hour)
 	if s.init != nil {
@@ -314,6 +319,7 @@ func (s *sim) apply(a sAction, last bool) bool {
 			w.stop()
 			nw := newRW(s.image)
 			nw.consumed = w.consumed
+			nw.keep, nw.seen = w.keep, w.seen
 			s.roots = append(s.roots, s.image)
 			s.w = nw
 			w = nw
@@ -333,6 +339,7 @@ func (s *sim) apply(a sAction, last bool) bool {
 					nw.stop()
 					nw2 := newRW(s.image)
 					nw2.consumed = nw.consumed
+					nw2.keep, nw2.seen = nw.keep, nw.seen
 					s.roots = append(s.roots, s.image)
 					s.w = nw2
 					w = nw2
